@@ -841,7 +841,7 @@ class WhenRef:
     or preset on nodes validation created itself) is deleted instead."""
     CONDS = ("sw", "ll", "nx", None)
     PARTS = ("dl", "npc", "pc", "dll", "item", "mode", "uses", "aug")
-    ORDER = ("dl", "dep", "npc", "pc", "dll", "item", "label", "ival", "value", "ug", "aug1", "aug2", "tdl")
+    ORDER = ("tdl", "dl", "dep", "tdep", "npc", "pc", "dll", "item", "label", "ival", "value", "ug", "aug1", "aug2")
 
     def __init__(self, cfg):
         self.cfg = cfg
@@ -858,7 +858,7 @@ class WhenRef:
             c.setdefault("mode", rng.choice(cls.CONDS))
             for p in ("auto", "manual", "inner"):
                 c[p] = rng.choice(cls.CONDS + (None,))
-        return cls({"c": c, "dep": "dl" in c and rng.random() < 0.6, "top": rng.random() < 0.4, "last": rng.random() < 0.4})
+        return cls({"c": c, "dep": "dl" in c and rng.random() < 0.25, "top": rng.random() < 0.4, "last": rng.random() < 0.4})
 
     @staticmethod
     def cond_text(cond, up):
@@ -893,8 +893,12 @@ class WhenRef:
                                                            self.when("inner", ""), self.when("manual", "")))
         if "uses" in c:
             b.append('uses grp {%s }' % self.when("uses", "") if c["uses"] else 'uses grp;')
+        if self.cfg["top"]:
+            # a nested default whose when reads the top-level conditional default
+            b.insert(0, 'leaf tdep { when "../../tdl = \'t\'"; type string; default "td"; }')
         body = b + ctl if self.cfg["last"] else ctl + b
-        top = ['leaf tsw { type string; }', 'leaf tdl { when "../tsw = \'on\'"; type string; default "t"; }'] if self.cfg["top"] else []
+        top = ['leaf tsw { type string; }', 'leaf tdl { when "../tsw = \'on\'"; type string; default "t"; }',
+               'container tnp { when "../tsw = \'on\'"; leaf tin { type string; default "ti"; } }'] if self.cfg["top"] else []
         aug = ['augment "/m1:box" {%s leaf aug1 { type string; default "a1"; } leaf aug2 { type string; } }' % self.when("aug", "")] \
             if "aug" in c else []
         return ('module m1 { yang-version 1.1; namespace "urn:m1"; prefix m1; description "cfg %s"; '
@@ -1046,8 +1050,10 @@ class WhenRef:
             return g("uses")
         if u in ("aug1", "aug2"):
             return g("aug")
-        if u == "tdl":
+        if u in ("tdl", "tnp"):
             return st["tsw"] == "on"
+        if u == "tdep":
+            return (st["E"]["tdl"] if "tdl" in st["E"] else ("t" if st["tsw"] == "on" else None)) == "t"
         raise KeyError(unit)
 
     def conds_of(self, unit):
@@ -1074,8 +1080,9 @@ class WhenRef:
                 deleted.append(u)
         return None, deleted
 
-    def nf(self, st):
-        """the tree after a successful validation: [name, value | None, default?, children]; also refreshes P / WT"""
+    def nf(self, st, nodflt=False):
+        """the tree after a successful validation: [name, value | None, default?, children]; also refreshes P / WT.
+        nodflt: without default leaves / leaf-lists (LYD_IMPLICIT_NO_DEFAULTS: NP containers only)"""
         E = st["E"]
         P = set()
         leaf = lambda n, v, d=False: [n, v, d, []]
@@ -1084,7 +1091,7 @@ class WhenRef:
             if key in E:
                 out.append(leaf(key.split("/")[-1], E[key]))
                 P.add(unit)
-            elif dval is not None and self.holds(st, unit):
+            elif dval is not None and not nodflt and self.holds(st, unit):
                 out.append(leaf(key.split("/")[-1], dval, True))
                 P.add(unit)
 
@@ -1093,6 +1100,10 @@ class WhenRef:
             if st["tsw"] is not None:
                 top.append(leaf("tsw", st["tsw"]))
             term("tdl", "tdl", "t", top)
+            if self.holds(st, "tnp"):
+                ch = []
+                term("tnp/tin", "tnp", "ti", ch)
+                top.append(["tnp", None, True, ch])
         ctl = []
         if st["sw"] is not None:
             ctl.append(leaf("sw", st["sw"]))
@@ -1101,6 +1112,8 @@ class WhenRef:
         ctl += [leaf("ll", str(v)) for v in sorted(st["ll"])]
         b = []
         c = self.c
+        if self.cfg["top"]:
+            term("tdep", "tdep", "td", b)
         if "dl" in c:
             term("dl", "dl", "dv", b)
         if self.cfg["dep"]:
@@ -1122,12 +1135,13 @@ class WhenRef:
             if E.get("dll"):
                 b += [leaf("dll", v) for v in E["dll"]]
                 P.update("dll:" + v for v in E["dll"])
-            elif self.holds(st, "dll"):
+            elif self.holds(st, "dll") and not nodflt:
                 b += [leaf("dll", "a", True), leaf("dll", "b", True)]
                 P.update(["dll:a", "dll:b"])
         if "item" in c:
             for k, iv in (E.get("item") or {}).items():
-                b.append(["item", None, False, [leaf("k", k), leaf("iv", iv) if iv is not None else leaf("iv", "iv0", True)]])
+                b.append(["item", None, False, [leaf("k", k)] + ([leaf("iv", iv)] if iv is not None else
+                                                                [] if nodflt else [leaf("iv", "iv0", True)])])
                 P.add("item:" + k)
         if "mode" in c:
             if "label" in E or "ival" in E:
@@ -1170,7 +1184,7 @@ class WhenRef:
         if st["x"] is not None:
             b += el("x", st["x"])
         b += "".join(el("ll", v) for v in st["ll"])
-        for k in ("dl", "dep"):
+        for k in ("tdep", "dl", "dep"):
             if k in E:
                 b += el(k, E[k])
         if "npc" in E:
@@ -1263,6 +1277,27 @@ class WhenDefaults(oracles_mod.Oracle):
             self.dump(0, 0)
             self.dump(3, 0)
 
+        def implicit_fresh(self, xml, opts, withdiff):
+            """lyd_new_implicit_all on the explicit content alone (parsed without validation), twice"""
+            self.parse(6, "x", xml, popts=PARSE_STRICT | PARSE_ONLY, vopts=0)
+            self.add("dup", "t6", "t8", oracles_mod.DUPF)
+            self.add("implicit", "t6", "c0", opts, *(["t7"] if withdiff else []))
+            self.dump(6, 0)
+            if withdiff:
+                self.add("apply", "t8", "t7")
+                self.add("cmp", "t8", "t6", oracles_mod.CMPX)
+            self.add("implicit", "t6", "c0", opts, *(["t9"] if withdiff else []))
+            self.dump(6, 0)
+            if withdiff:
+                self.dump(9, 0)
+
+        def implicit_live(self):
+            """lyd_new_implicit_all on a copy of the validated tree: complete already"""
+            self.add("dup", "t0", "t10", oracles_mod.DUPF)
+            self.add("implicit", "t10", "c0", 0, "t11")
+            self.dump(10, 0)
+            self.dump(11, 0)
+
     class ValidScript(LyxScript):
         """the same history as commands of impl/t_valid.c: validation with lyd_validate_module"""
         def start(self, yang):
@@ -1280,6 +1315,12 @@ class WhenDefaults(oracles_mod.Oracle):
             self.dump(0, 0)
             self.add("val", "t0", 0, "m")
             self.dump(0, 0)
+
+        def implicit_fresh(self, xml, opts, withdiff):
+            pass                              # impl/t_valid.c has no lyd_new_implicit_* command
+
+        def implicit_live(self):
+            pass
 
         def line(self):
             return "valid\t" + "\t".join(self.cmds)
@@ -1304,6 +1345,18 @@ class WhenDefaults(oracles_mod.Oracle):
                 ev.append(("new", txt(w[-2]), txt(w[-1]), r[k]))
             elif w[0] == "freepath":
                 ev.append(("free", txt(w[2]), r[k]))
+            elif w[0] == "parse" and w[2] == "t6":
+                wd = len(cmds[k + 2].split(" ")) > 4
+                d = {"xml": txt(w[-1]), "opts": int(cmds[k + 2].split(" ")[3]), "rc1": r[k + 2], "d1": r[k + 3]}
+                if wd:
+                    d.update({"apply": r[k + 4], "cmp": r[k + 5], "rc2": r[k + 6], "d2": r[k + 7], "diff2": r[k + 8]})
+                else:
+                    d.update({"apply": None, "cmp": None, "rc2": r[k + 4], "d2": r[k + 5], "diff2": None})
+                ev.append(("impl", d))
+                k += 8 if wd else 5
+            elif w[0] == "dup" and w[1] == "t0" and w[2] == "t10":
+                ev.append(("live", {"rc": r[k + 1], "d": r[k + 2], "diff": r[k + 3]}))
+                k += 3
             elif w[0] == "parse":
                 ev.append(("parse", txt(w[-1]), r[k], r[k + 1]))
                 k += 1
@@ -1337,11 +1390,17 @@ class WhenDefaults(oracles_mod.Oracle):
                     self.emit(ref, st, s, p, v)
                 if rng.random() < 0.3:
                     s.parsed(ref.xml(st))
+                if rng.random() < 0.4 and not ref.false_units(st):
+                    # the implicit-node API on the same explicit content: no option / NO_STATE / OUTPUT (no effect on
+                    # config data) / NO_DEFAULTS (NP containers only), with and without the diff output
+                    s.implicit_fresh(ref.xml(st), rng.choice([0, 0, 0x01, 0x04, 0x08]), rng.random() < 0.7)
                 s.validate()
                 bad, _ = ref.resolve(st)
                 if bad:
                     break
                 ref.nf(st)
+                if rng.random() < 0.3:
+                    s.implicit_live()
             L.append(s.line())
         return L
 
@@ -1426,7 +1485,7 @@ class WhenDefaults(oracles_mod.Oracle):
         if "aug" in c:
             cands += [("aug1", "e1"), ("aug2", "e1")]
         if ref.cfg["top"]:
-            cands.append(("/m1:tdl", "e1"))
+            cands += [("/m1:tdl", "e1"), ("tdep", "e1")]
         if rng.random() < 0.85:
             unit = lambda k: "tdl" if k == "/m1:tdl" else k.split("[")[0].split("/")[0]
             cands = [(k, v) for k, v in cands if ref.holds(st, unit(k))] or cands
@@ -1438,6 +1497,19 @@ class WhenDefaults(oracles_mod.Oracle):
                 if o in E:
                     self.emit(ref, st, s, "/m1:box/" + o, None)
         self.emit(ref, st, s, k if k.startswith("/") else "/m1:box/" + k, v)
+
+    @staticmethod
+    def without(nodes, name):
+        """the tree without the node `name` in box (the default flag of a container follows from its children)"""
+        return [[n, v, d and v is not None, [x for x in ch if not (n == "box" and x[0] == name)]] for n, v, d, ch in nodes]
+
+    API_ORDER = ("implicit-api-when-order", ": lyd_new_implicit_tree / _module / _all resolve the when conditions of the nodes "
+                 "they created with LYXP_IGNORE_WHEN, so the when of dep (reads dl) is evaluated while the default dl that is "
+                 "about to be removed (its own when is false) still exists")
+    PARSE_TOP = ("parse-when-before-toplevel-default", ": lyd_parse_data validates module by module with ONE set of "
+                 "unresolved when conditions: the when of the nested default tdep (reads the top-level default tdl) is "
+                 "resolved during the pass of an earlier module of the context, before the top-level defaults of its own "
+                 "module exist")
 
     def judge(self, line, out):
         import copy
@@ -1465,13 +1537,51 @@ class WhenDefaults(oracles_mod.Oracle):
                             "whose when is false: %s" % (bad[0], e[1]))
                 if not bad:
                     if rc(e[2]) != 0:
-                        return (None, "parsing with validation rejects valid data (%s): %s" % (e[2][:150], e[1]))
+                        top = ref.cfg["top"] and "tdep" in st["E"] and "tdl" not in st["E"]
+                        return (self.PARSE_TOP[0] if top else None, "parsing with validation rejects valid data (%s): %s%s"
+                                % (e[2][:150], e[1], self.PARSE_TOP[1] + " (here the explicit tdep is reported as invalid)" if top else ""))
                     want = ref.canon(ref.nf(copy.deepcopy(st)))
                     got = ref.canon(ref.of_dump(e[3]))
                     if got != want:
-                        return (None,
-                                "parsed with validation, %s gives [%s], expected (when conditions evaluated by the reference) [%s]"
-                                % (e[1], ref.show(got), ref.show(want)))
+                        top = ref.cfg["top"] and got == self.without(want, "tdep") != self.without(got, "tdep") or \
+                            (ref.cfg["top"] and self.without(got, "tdep") == self.without(want, "tdep") and
+                             not any(x[0] == "tdep" for n in got if n[0] == "box" for x in n[3]))
+                        return (self.PARSE_TOP[0] if top else None,
+                                "parsed with validation, %s gives [%s], expected (when conditions evaluated by the reference) [%s]%s"
+                                % (e[1], ref.show(got), ref.show(want), self.PARSE_TOP[1] if top else ""))
+            elif e[0] == "impl":
+                v = e[1]
+                if v["xml"] != ref.xml(st) or ref.false_units(st):
+                    continue                          # not judged
+                what = "lyd_new_implicit_all(options %d%s) on the explicit content %s" % (
+                    v["opts"], ", diff" if v["apply"] is not None else "", v["xml"])
+                if rc(v["rc1"]) != 0:
+                    return (None, "%s fails: %s" % (what, v["rc1"]))
+                want = ref.canon(ref.nf(copy.deepcopy(st), nodflt=bool(v["opts"] & 0x08)))
+                got = ref.canon(ref.of_dump(v["d1"]))
+                if got != want:
+                    known = ref.cfg["dep"] and self.without(got, "dep") == self.without(want, "dep")
+                    return (self.API_ORDER[0] if known else None, "%s gives [%s], expected (implicit nodes exactly where the "
+                            "when holds, as validation creates them) [%s]%s"
+                            % (what, ref.show(got), ref.show(want), self.API_ORDER[1] if known else ""))
+                if v["apply"] is not None and (rc(v["apply"]) != 0 or v["cmp"] != "0"):
+                    return (None, "%s: the returned change set applied to the tree before does not give the tree after "
+                                  "(apply %s, compare %s)" % (what, v["apply"], v["cmp"]))
+                if rc(v["rc2"]) != 0 or DfltModel.only_m1(v["d2"]) != DfltModel.only_m1(v["d1"]):
+                    return (None, "%s: a second call changes the tree (%s): [%s]" % (what, v["rc2"], ref.show(ref.of_dump(v["d2"]))))
+                if v["diff2"] not in (None, "empty"):
+                    return (None, "%s: a second call reports a non-empty change set: %s" % (what, v["diff2"][:200]))
+            elif e[0] == "live":
+                v = e[1]
+                # (the tree was validated just before: st is its record)
+                got, want = ref.canon(ref.of_dump(v["d"])), ref.canon(ref.nf(copy.deepcopy(st)))
+                known = ref.cfg["dep"] and rc(v["rc"]) == 0 and self.without(got, "dep") == self.without(want, "dep")
+                if rc(v["rc"]) != 0 or got != want:
+                    return (self.API_ORDER[0] if known else None, "lyd_new_implicit_all on a validated (complete) tree "
+                            "changes it (%s): [%s]%s" % (v["rc"], ref.show(got), self.API_ORDER[1] if known else ""))
+                if v["diff"] != "empty":
+                    return (None, "lyd_new_implicit_all on a validated (complete) tree reports a non-empty change set: %s"
+                            % v["diff"][:200])
             else:
                 v = e[1]
                 rnd += 1
